@@ -111,7 +111,10 @@ where
                 }
                 // If no messages are available and there's no work to do, block this future
                 Poll::Pending if stream.is_empty() && buffered_item.is_none() => {
-                    return Poll::Pending
+                    // A previous flush may still be outstanding (e.g. the last publisher finished
+                    // while a subscriber was not ready), so complete it before going to sleep
+                    ready!(sink.as_mut().poll_flush(cx)).unwrap();
+                    return Poll::Pending;
                 }
                 // Otherwise, move on with running the stream
                 Poll::Pending => (),
